@@ -30,7 +30,7 @@ MAPPING = r"""
                  QTY  a Quantity            -> the model's `quantity` (q_mag : num, q_dims : list Q)
                  N    an int/Fraction/float -> the model's `num` (float idealised as the rational it denotes)
                  Z    an int  -> Z;   P  a Fraction's denominator -> positive;   S  a str -> string;
-                 B    a bool  -> bool;   OPT  the result of utcoffset() -> option Z;   DIMS  a QuantityVector -> list Q;
+                 B    a bool  -> bool;   OPT  the result of utcoffset() -> option Z;   TZ  a tzinfo -> option Z;   DIMS  a QuantityVector -> list Q;
                  U    None (a procedure's result) -> unit
                A Python variable x is the Gallina variable v_x; t1, t2, .. are the results of bound calls.
    results     every translated function returns `res T` (Model/Prelude.v): `return e` is `Ok e`, falling off the
@@ -46,6 +46,11 @@ MAPPING = r"""
                `match BODY with Raise E => HANDLER | r => r end`  — E catches exactly the model's constructor E.
    datetime    (PRELUDE below; Python's datetime/timedelta arithmetic expressed with Model/Instant.v, Model/Calendar.v)
                datetime(y, m, d)            datetime3 y m d   = datetime_new y m d 0 0 0 0 (ValueError), naive
+               datetime(y, m, d, tzinfo=E)  datetime3_tz y m d E: the same midnight of that wall-clock date, carrying
+                                            the offset E (ValueError as above; E evaluated after y, m, d)
+               dt.tzinfo                    dt_tzinfo dt = dt_off dt  (kind TZ -> option Z): a tzinfo is identified
+                                            with its fixed UTC offset (None = naive), which is what
+                                            datetime.fromisoformat produces (timezone(timedelta) objects)
                datetime.fromisoformat(s)    dt_fromisoformat s = the model's fromisoformat s, naive (aware texts and
                                             the other spellings Python accepts are declined: Raise Unmodelled)
                timedelta(days=n)            td_of_days n   (OverflowError beyond 999999999 days)
@@ -123,6 +128,8 @@ Definition dt_minus_dt (a b : pydt) : res Z :=
 Definition dt_plus_td (d : pydt) (t : Z) : res pydt := do r <- add_td (dt_us d) t; Ok (mk_dt r (dt_off d)).
 Definition dt_minus_td (d : pydt) (t : Z) : res pydt := do r <- add_td (dt_us d) (- t); Ok (mk_dt r (dt_off d)).
 Definition datetime3 (y m d : Z) : res pydt := do r <- datetime_new y m d 0 0 0 0; Ok (naive r).
+Definition dt_tzinfo (d : pydt) : option Z := dt_off d.
+Definition datetime3_tz (y m d : Z) (tz : option Z) : res pydt := do r <- datetime_new y m d 0 0 0 0; Ok (mk_dt r tz).
 Definition dt_fromisoformat (s : string) : res pydt := do r <- fromisoformat s; Ok (naive r).
 Definition dt_year (d : pydt) : Z := get_year (dt_us d).
 Definition dt_month (d : pydt) : Z := get_month (dt_us d).
@@ -189,7 +196,7 @@ KIND_OF_TYPE = {"Instant": "KInstant", "Quantity": "KQuantity", "Integral": "KIn
 TY_OF_KIND = {"KInstant": "I", "KQuantity": "QTY", "KIntegral": "Z"}
 VAL_CTOR = {"I": "VInst", "QTY": "VQty", "Z": "VInt"}
 COQ_TY = {"I": "instant", "DT": "pydt", "TD": "Z", "QTY": "quantity", "N": "num", "Z": "Z", "P": "positive", "S": "string",
-          "B": "bool", "OPT": "(option Z)", "DIMS": "(list Q)", "U": "unit"}
+          "B": "bool", "OPT": "(option Z)", "TZ": "(option Z)", "DIMS": "(list Q)", "U": "unit"}
 REGEXES = {r"\d{4}$": "just_year", r"\d{4}-\d{2}$": "just_year_month"}
 DT_FIELDS = {"year": "dt_year", "month": "dt_month", "day": "dt_day", "hour": "dt_hour", "minute": "dt_minute",
              "second": "dt_second"}
@@ -334,6 +341,9 @@ class FnTr:
             if e.attr in DT_FIELDS:
                 self.need(t, "DT", "object of .%s" % e.attr)
                 return k("(%s %s)" % (DT_FIELDS[e.attr], a), "Z")
+            if e.attr == "tzinfo":
+                self.need(t, "DT", "object of .tzinfo")
+                return k("(dt_tzinfo %s)" % a, "TZ")
             if e.attr == "mag":
                 self.need(t, "QTY", "object of .mag")
                 return k("(q_mag %s)" % a, "N")
@@ -489,18 +499,22 @@ class FnTr:
                     return self.bound("td_of_days %s" % a, k, "TD")
                 return self.bound("timedelta_seconds %s" % self.as_num(a, t, "timedelta(seconds=..)"), k, "TD")
             return self.expr(kw.value, env, fin)
-        if e.keywords:
-            raise Untranslatable("keyword arguments")
         if f == "datetime":
             self.glob("datetime", env)
+            if len(e.args) != 3 or any(kw.arg != "tzinfo" for kw in e.keywords) or len(e.keywords) > 1:
+                raise Untranslatable("datetime(...) with other arguments than y, m, d[, tzinfo=..]")
 
             def fin(ats):
-                if len(ats) != 3:
-                    raise Untranslatable("datetime(...) with %d arguments" % len(ats))
-                for a, t in ats:
+                for a, t in ats[:3]:
                     self.need(t, "Z", "datetime field")
-                return self.bound("datetime3 %s" % " ".join(a for a, _ in ats), k, "DT")
-            return self.exprs(e.args, env, fin)
+                if len(ats) == 3:
+                    return self.bound("datetime3 %s" % " ".join(a for a, _ in ats), k, "DT")
+                self.need(ats[3][1], "TZ", "datetime(.., tzinfo=..)")
+                return self.bound("datetime3_tz %s" % " ".join(a for a, _ in ats), k, "DT")
+            # positional arguments, then the keyword value: Python's evaluation order
+            return self.exprs(list(e.args) + [kw.value for kw in e.keywords], env, fin)
+        if e.keywords:
+            raise Untranslatable("keyword arguments")
         if f == "Instant":
             self.glob("Instant", env)
 
